@@ -104,6 +104,7 @@ type interpreter struct {
 	curFr      *frame
 	unwinding  bool
 	panicStack string
+	inHook     bool
 	guardLimit []int64
 	lastGuard  string
 }
